@@ -17,6 +17,7 @@
 #include "core/tokens.h"
 #include "core/AsmContext.h"
 #include "core/Macros.h"
+#include "core/print_error.h"
 #include "core/Symbols.h"
 
 enum
@@ -267,6 +268,12 @@ printf("debug> #if eval_operation() @EOL  n=%d precedence=%d state=%d\n", n, pre
           else
         if (IS_TOKEN(token,'('))
         {
+          if (paren_count >= 100)
+          {
+            print_error(asm_context, "Parentheses are nested too deep");
+            return -1;
+          }
+
           if (parse_ifdef_expression(asm_context, &n, paren_count + 1, PREC_OR, 0) == -1)
           {
             return -1;
